@@ -29,6 +29,7 @@ type SpecEnv struct {
 	visitedKey string
 	loopVar    types.Object
 	loopEntry  *State // state on entry to the innermost loop under specification (for atLoop)
+	topFrame   bool      // resolve locals and lets in the frame of the function under verification (call-site clauses met inside an inlined helper)
 	frameFn    *FuncInfo // for resolving locals by name
 	frameLit   ast.Node
 	noLocals   bool
@@ -175,6 +176,9 @@ func (x *Exec) lookupLocal(name string, env *SpecEnv) (TV, bool) {
 			fr = x.frames[i]
 			break
 		}
+	}
+	if env.topFrame && x.frames[0].fi != nil {
+		fr = x.frames[0]
 	}
 	if fr.fi == nil {
 		return TV{}, false
@@ -1392,6 +1396,19 @@ func (x *Exec) frameEnv(st *State) *SpecEnv {
 	if fc != nil {
 		env.lets = map[string]ast.Expr{}
 		for _, l := range fc.Lets {
+			env.lets[l.Name] = l.Expr
+		}
+	}
+	return env
+}
+
+// topFrameEnv: the environment of the function under verification, whatever helper is being inlined right now.
+func (x *Exec) topFrameEnv(st *State) *SpecEnv {
+	env := x.frameEnv(st)
+	env.topFrame = true
+	if x.topC != nil {
+		env.lets = map[string]ast.Expr{}
+		for _, l := range x.topC.Lets {
 			env.lets[l.Name] = l.Expr
 		}
 	}
